@@ -474,6 +474,120 @@ class AMI(AM):
         raise StopIteration(bool(sw))
 
 
+class _Ent(object):
+    """one activation of a re-entrant manager: what the shadow model lists (the same manager object may be active
+    several times in one frame, each time for another with-block)"""
+
+    def __init__(s, obj, i):
+        s.obj = obj
+        s.i = i
+        s.is_async = obj.is_async
+
+    def __repr__(s):
+        return "%r@with%d" % (s.obj, s.i)
+
+
+def mgr_of(entry):
+    """the manager object of an entry of rt.active / rt.exiting / rt.entering"""
+    return getattr(entry, "obj", entry)
+
+
+class RM(object):
+    """a re-entrant manager: ONE object per run serves every sync with-block of the program"""
+    is_async = False
+    reentrant = True
+
+    def __init__(s, rt):
+        s.rt = rt
+        s.pending = []
+        s.ents = []
+
+    def __repr__(s):
+        return "RM"
+
+    def __enter__(s):
+        rt = s.rt
+        ent = _Ent(s, s.pending.pop())
+        rt.entering = ent
+        rt.probe("enter")
+        rt.entering = None
+        s.ents.append(ent)
+        rt.active.append(ent)
+        rt.log.append(("enter", ent.i))
+        return s
+
+    def __exit__(s, *exc):
+        rt = s.rt
+        ent = s.ents[-1]
+        rt.exiting = ent
+        rt.log.append(("exit", ent.i, exc[0] is not None))
+        rt.probe("exit")
+        sw = rt.c() if exc[0] is not None else 0
+        rt.exiting = None
+        s.ents.pop()
+        rt.active.remove(ent)
+        rt.log.append(("exited", ent.i, sw))
+        return bool(sw)
+
+
+class ARM(object):
+    """the async counterpart: ONE object per run serves every async with-block of the program"""
+    is_async = True
+    reentrant = True
+
+    def __init__(s, rt):
+        s.rt = rt
+        s.pending = []
+        s.ents = []
+
+    def __repr__(s):
+        return "ARM"
+
+    async def __aenter__(s):
+        rt = s.rt
+        ent = _Ent(s, s.pending.pop())
+        rt.entering = ent
+        rt.probe("aenter0")
+        await trap("aenter")
+        rt.probe("aenter1")
+        rt.entering = None
+        s.ents.append(ent)
+        rt.active.append(ent)
+        rt.log.append(("enter", ent.i))
+        return s
+
+    async def __aexit__(s, *exc):
+        rt = s.rt
+        ent = s.ents[-1]
+        rt.exiting = ent
+        rt.log.append(("exit", ent.i, exc[0] is not None))
+        rt.probe("aexit0")
+        await trap("aexit")
+        rt.probe("aexit1")
+        sw = rt.c() if exc[0] is not None else 0
+        rt.exiting = None
+        s.ents.pop()
+        rt.active.remove(ent)
+        rt.log.append(("exited", ent.i, sw))
+        return bool(sw)
+
+
+def _m_reentrant(rt, i):
+    m = rt.__dict__.get("_rm")
+    if m is None:
+        m = rt.__dict__["_rm"] = RM(rt)
+    m.pending.append(i)
+    return m
+
+
+def _am_reentrant(rt, i):
+    m = rt.__dict__.get("_arm")
+    if m is None:
+        m = rt.__dict__["_arm"] = ARM(rt)
+    m.pending.append(i)
+    return m
+
+
 def _m_mixed(rt, i):
     return (M if i % 2 else MC)(rt, i)
 
@@ -484,6 +598,9 @@ def _am_mixed(rt, i):
 
 # managers alternate between the plain classes and the ones whose exit functions have unusual names
 NS_MIXED = {"AM": _am_mixed, "M": _m_mixed, "E": E, "trap": trap}
+# every with-block of a program is served by one and the same (re-entrant) manager object per kind
+NS_REENTRANT = {"AM": _am_reentrant, "M": _m_reentrant, "E": E, "trap": trap}
+NAMESPACES = {"mixed": NS_MIXED, "reentrant": NS_REENTRANT}
 
 
 def compile_prog(src, filename="<prog>", ns=None):
@@ -566,5 +683,5 @@ def expected_contexts(rt, withs):
     out = []
     for m in rt.active:
         ln, vn, a = withs[m.i]
-        out.append((m, a, m is rt.exiting, vn, ln))
+        out.append((mgr_of(m), a, m is rt.exiting, vn, ln))
     return out
